@@ -14,6 +14,7 @@ import SpecKitV.Gen.LpsdCore
 import SpecKitV.Model.LpsdCore
 import SpecKitV.Props.C05
 import SpecKitV.Props.C02
+import SpecKitV.Props.NumpyKernelsGen
 
 set_option linter.unusedVariables false
 set_option linter.unusedSimpArgs false
@@ -893,6 +894,149 @@ theorem gen_plan_band_none (f r b : Arr ℝ) (pL pK navg : Arr ℤ) (O : Arr ℝ
     Gen.plan_band (none : Option (ℝ × ℝ)) f r b pL pK navg O pD nf Dn = (decide (f.n ≠ pD.n), (f, r, b, pL, pK, navg, O, pD, nf)) := by
   simp [Gen.plan_band, NpLC.join_mk]
 
+/-! ### follow-up: all three backends concrete — the `_np` names are the TRANSLATED NumPy fallbacks (Gen/NumpyKernels)
+
+The fallbacks take two more arguments than the Numba kernels: the keyword-only `_chunk` (the analyzer never passes it: the default of
+the Python signature, translated as `Gen._stats_*_np_chunk_default`) and `uninit` (the contents of `np.empty`, arbitrary).  Starts are
+`Arr ℕ` and the basis an `Arr2` on both sides, so no conversion is needed.  `np_numba_agree_*` (Props/NumpyKernelsGen) hold for every
+segment count including 0, hence no `0 < K` and no in-range hypothesis is left; the two polynomial kernels need the basis to have
+`order + 1` columns (what `_build_Q(L, order)` returns). -/
+
+/-- the six NumPy fallbacks as translated, called the way analysis.py calls them (default `_chunk`), for any uninitialised memory `u` -/
+noncomputable def genNp6 (u : ℕ → ℕ → ℝ) : NpLC.Kernels6 ℝ :=
+  ⟨fun x s L w ω => Gen._stats_win_only_auto_np x s L w ω Gen._stats_win_only_auto_np_chunk_default u,
+   fun x1 x2 s L w ω => Gen._stats_win_only_csd_np x1 x2 s L w ω Gen._stats_win_only_csd_np_chunk_default u,
+   fun x s L w ω => Gen._stats_detrend0_auto_np x s L w ω Gen._stats_detrend0_auto_np_chunk_default u,
+   fun x1 x2 s L w ω => Gen._stats_detrend0_csd_np x1 x2 s L w ω Gen._stats_detrend0_csd_np_chunk_default u,
+   fun x s L w ω Q => Gen._stats_poly_auto_np x s L w ω Q Gen._stats_poly_auto_np_chunk_default u,
+   fun x1 x2 s L w ω Q => Gen._stats_poly_csd_np x1 x2 s L w ω Q Gen._stats_poly_csd_np_chunk_default u⟩
+
+/-- the family the analyzer really runs: every one of the 18 names is translated code -/
+noncomputable def genFamilyAll (u : ℕ → ℕ → ℝ) : NpLC.KernelFamily ℝ := NpLC.KernelFamily.ofBackends genNumba6 genCuda6 (genNp6 u)
+
+/-- dispatch over the translated NumPy fallbacks = `Model.dispatch` (the Numba instance); only hypothesis: for orders 1, 2 the basis
+    handed over has `order + 1` columns -/
+theorem dispatchWith_genNp6 (u : ℕ → ℕ → ℝ) (iscsd : Bool) (order : ℤ) (x1 x2 : Arr ℝ) (fs : ℝ) (b : Model.PBin ℝ) (w : Arr ℝ)
+    (q : Option (Arr2 ℝ)) (hQ : order = 1 ∨ order = 2 → ∀ Q, q = some Q → Q.m = (order + 1).toNat) :
+    Model.dispatchWith (genNp6 u) iscsd order x1 x2 fs b w q = Model.dispatch iscsd order x1 x2 fs b w q := by
+  obtain ⟨c1, c2, c3, c4, c5, c6⟩ := gen_np_default_chunks_pos
+  unfold Model.dispatchWith Model.dispatch genNp6
+  dsimp only
+  by_cases ho1 : order = -1
+  · simp only [ho1, if_true, np_numba_agree_win_only_auto _ _ _ _ _ _ c1, np_numba_agree_win_only_csd _ _ _ _ _ _ _ c2]
+  · by_cases ho0 : order = 0
+    · simp only [ho0, if_true, np_numba_agree_detrend0_auto _ _ _ _ _ _ c3, np_numba_agree_detrend0_csd _ _ _ _ _ _ _ c4]
+      rfl
+    · by_cases ho12 : order = 1 ∨ order = 2
+      · simp only [if_neg ho1, if_neg ho0, if_pos ho12]
+        cases q with
+        | none => rfl
+        | some Q =>
+          obtain ⟨hp, hp1, hcast⟩ := toNat_succ_cast order ho12
+          have hm : Q.m = order.toNat + 1 := (hQ ho12 Q rfl).trans hp1
+          simp only [np_numba_agree_poly_auto _ _ _ _ _ Q order.toNat hp hm _ c5,
+            np_numba_agree_poly_csd _ _ _ _ _ _ Q order.toNat hp hm _ c6]
+      · simp only [if_neg ho1, if_neg ho0, if_neg ho12]
+
+/-- ANY backend string `_select_backend` may return ("cuda", "numba", or anything else = the NumPy fallbacks): the kernels selected by
+    NAME give `Model.dispatch` -/
+theorem dispatchWith_genFamilyAll (u : ℕ → ℕ → ℝ) (backend : String) (iscsd : Bool) (order : ℤ) (x1 x2 : Arr ℝ) (fs : ℝ)
+    (b : Model.PBin ℝ) (w : Arr ℝ) (q : Option (Arr2 ℝ)) (hQ : order = 1 ∨ order = 2 → ∀ Q, q = some Q → Q.m = (order + 1).toNat) :
+    Model.dispatchWith ((genFamilyAll u).pick backend) iscsd order x1 x2 fs b w q = Model.dispatch iscsd order x1 x2 fs b w q := by
+  by_cases h1 : backend = "cuda"
+  · subst h1
+    have : (genFamilyAll u).pick "cuda" = genCuda6 := rfl
+    rw [this, genCuda6_eq_genNumba6, dispatchWith_numba]
+  · by_cases h2 : backend = "numba"
+    · subst h2
+      have : (genFamilyAll u).pick "numba" = genNumba6 := rfl
+      rw [this, dispatchWith_numba]
+    · have : (genFamilyAll u).pick backend = genNp6 u := by
+        unfold genFamilyAll NpLC.KernelFamily.pick NpLC.KernelFamily.ofBackends
+        simp only [h1, h2, if_false]
+      rw [this, dispatchWith_genNp6 u iscsd order x1 x2 fs b w q hQ]
+
+theorem hQ_of_cols (bq : ℕ → ℤ → Arr2 ℝ) (order : ℤ) (hQ : order = 1 ∨ order = 2 → ∀ L, (bq L order).m = (order + 1).toNat) (L : ℕ) :
+    order = 1 ∨ order = 2 → ∀ Q, (if order = 1 ∨ order = 2 then some (bq L order) else none) = some Q → Q.m = (order + 1).toNat := by
+  intro h Q hq
+  rw [if_pos h, Option.some.injEq] at hq
+  subst hq
+  exact hQ h L
+
+/-- MAIN, all backends: the translated `_lpsd_core` run on the 18 translated kernels computes `Model.lpsdCore`, whatever
+    `_select_backend` answers for each bin, for every plan (empty segment lists included), every chunking memory `u`.
+    Remaining hypothesis: for orders 1, 2 `_build_Q(L, order)` has `order + 1` columns. -/
+theorem gen_lpsd_core_eq_model_all_backends (u : ℕ → ℕ → ℝ) (bq : ℕ → ℤ → Arr2 ℝ) (sel : ℕ → String → String) (wf : NpLC.WinFunc ℝ)
+    (alpha : ℝ) (order : ℤ) (hQ : order = 1 ∨ order = 2 → ∀ L, (bq L order).m = (order + 1).toNat)
+    (cb : String) (x1 x2 : Arr ℝ) (iscsd : Bool) (fs : ℝ) (nx : ℤ) (pL : Arr ℕ) (pD : Arr (Arr ℕ)) (pf : Arr ℝ) (idx : List ℕ) :
+    ((Gen._lpsd_core (genFamilyAll u) bq sel wf alpha order cb x1 x2 iscsd fs nx pL pD pf idx).2).map rowStats
+      = Model.lpsdCore iscsd order x1 x2 fs (Model.lpsdWindow wf alpha) bq (idx.map (Model.pbinAt pf pL pD)) := by
+  rw [gen_lpsd_core_rows, lpsdCore_eq_map, List.map_map, List.map_map]
+  apply List.map_congr_left
+  intro i _
+  simp only [Function.comp, rowAt, rowStats_lpsdRow]
+  exact dispatchWith_genFamilyAll u _ iscsd order x1 x2 fs (Model.pbinAt pf pL pD i) _ _ (hQ_of_cols bq order hQ _)
+
+/-- every bin of the translated analysis = the reference estimator on its own (f, L, D), ALL backends, cross mode.  Hypotheses: a supported
+    order (the code raises otherwise), `_build_Q(L, order)` with `order + 1` columns, at least one segment per bin (plan() rejects empty D;
+    the reference divides by K). -/
+theorem gen_lpsd_core_eq_ref_all_backends_cross (u : ℕ → ℕ → ℝ) (bq : ℕ → ℤ → Arr2 ℝ) (sel : ℕ → String → String) (wf : NpLC.WinFunc ℝ)
+    (alpha : ℝ) (order : ℤ) (hord : order = -1 ∨ order = 0 ∨ order = 1 ∨ order = 2) (hQ : ∀ L, (bq L order).m = (order + 1).toNat)
+    (cb : String) (x1 x2 : Arr ℝ) (fs : ℝ) (nx : ℤ) (pL : Arr ℕ) (pD : Arr (Arr ℕ)) (pf : Arr ℝ)
+    (idx : List ℕ) (hK : ∀ i ∈ idx, 0 < (pD.get i).n) :
+    ((Gen._lpsd_core (genFamilyAll u) bq sel wf alpha order cb x1 x2 true fs nx pL pD pf idx).2).map rowStats
+      = idx.map (fun i => Model.refStats order (bq (pL.get i) order).get x1.get x2.get (pD.get i).get (pD.get i).n (pL.get i)
+          (Model.lpsdWindow wf alpha (pL.get i)).get (2 * Real.pi * pf.get i / fs)) := by
+  rw [gen_lpsd_core_eq_model_all_backends u bq sel wf alpha order (fun _ => hQ) cb x1 x2 true fs nx pL pD pf idx,
+    lpsdCore_eq_ref_cross order hord x1 x2 fs _ bq hQ, List.map_map]
+  · rfl
+  · intro b hb'
+    obtain ⟨i, hi, rfl⟩ := List.mem_map.mp hb'
+    exact hK i hi
+
+/-- the same in auto mode -/
+theorem gen_lpsd_core_eq_ref_all_backends_auto (u : ℕ → ℕ → ℝ) (bq : ℕ → ℤ → Arr2 ℝ) (sel : ℕ → String → String) (wf : NpLC.WinFunc ℝ)
+    (alpha : ℝ) (order : ℤ) (hord : order = -1 ∨ order = 0 ∨ order = 1 ∨ order = 2) (hQ : ∀ L, (bq L order).m = (order + 1).toNat)
+    (cb : String) (x1 x2 : Arr ℝ) (fs : ℝ) (nx : ℤ) (pL : Arr ℕ) (pD : Arr (Arr ℕ)) (pf : Arr ℝ)
+    (idx : List ℕ) (hK : ∀ i ∈ idx, 0 < (pD.get i).n) :
+    ((Gen._lpsd_core (genFamilyAll u) bq sel wf alpha order cb x1 x2 false fs nx pL pD pf idx).2).map rowStats
+      = idx.map (fun i => Model.refStatsAuto order (bq (pL.get i) order).get x1.get (pD.get i).get (pD.get i).n (pL.get i)
+          (Model.lpsdWindow wf alpha (pL.get i)).get (2 * Real.pi * pf.get i / fs)) := by
+  rw [gen_lpsd_core_eq_model_all_backends u bq sel wf alpha order (fun _ => hQ) cb x1 x2 false fs nx pL pD pf idx,
+    lpsdCore_eq_ref_auto order hord x1 x2 fs _ bq hQ, List.map_map]
+  · rfl
+  · intro b hb'
+    obtain ⟨i, hi, rfl⟩ := List.mem_map.mp hb'
+    exact hK i hi
+
+/-- the kernel section of `compute_single_bin` on the 18 translated kernels, ALL backends: its six stored values are `Model.dispatch` on the
+    requested bin (= the one-element plan through `Model.lpsdCore`) and `Model.winSums` of the window built for `segL`.
+    Hypotheses: supported order (the code raises otherwise); `_build_Q(segL, order)` with `order + 1` columns for orders 1, 2. -/
+theorem gen_single_bin_section_all_backends (u : ℕ → ℕ → ℝ) (bq : ℕ → ℤ → Arr2 ℝ) (sel : ℕ → String → String) (wf : NpLC.WinFunc ℝ)
+    (alpha : ℝ) (order : ℤ) (hord : order = -1 ∨ order = 0 ∨ order = 1 ∨ order = 2)
+    (hQ : order = 1 ∨ order = 2 → ∀ L, (bq L order).m = (order + 1).toNat) (cb : String) (x1 x2 : Arr ℝ) (iscsd : Bool) (fs : ℝ) (nx : ℤ)
+    (freq fres : ℝ) (segL : ℕ) (starts : Arr ℕ) :
+    Gen.single_bin_kernel_section (genFamilyAll u) bq sel wf alpha order cb x1 x2 iscsd fs nx freq fres segL starts
+      = (decide ((Model.lpsdWindow wf alpha segL).n ≠ segL),
+          (let s := Model.dispatch iscsd order x1 x2 fs ⟨freq, segL, starts⟩ (Model.lpsdWindow wf alpha segL)
+              (if order = 1 ∨ order = 2 then some (bq segL order) else none)
+           (s.1, s.2.1, (⟨s.2.2.1, s.2.2.2.1⟩ : Cx ℝ), (Model.winSums (Model.lpsdWindow wf alpha segL)).1,
+            (Model.winSums (Model.lpsdWindow wf alpha segL)).2, s.2.2.2.2))) := by
+  rw [gen_single_bin_section_eq_model (genFamilyAll u) bq sel wf alpha order hord cb x1 x2 iscsd fs nx freq fres segL starts _ rfl]
+  unfold singleOut
+  dsimp only
+  rw [dispatchWith_genFamilyAll u _ iscsd order x1 x2 fs ⟨freq, segL, starts⟩ _ _ (hQ_of_cols bq order hQ segL)]
+
+/-- satisfiability: order 2, a basis with 3 columns, the "numpy" backend selected for every bin, one bin with NO segment and one with two -/
+example (u : ℕ → ℕ → ℝ) (x1 x2 : Arr ℝ) :
+    ((Gen._lpsd_core (genFamilyAll u) (fun L o => ⟨L, (o + 1).toNat, fun _ _ => 0⟩) (fun _ _ => "numpy")
+        (⟨false, fun L => ⟨L, fun _ => 1⟩, fun L _ => ⟨L, fun _ => 1⟩⟩ : NpLC.WinFunc ℝ) 0 2 "numpy" x1 x2 true 2 10
+        ⟨2, fun i => 3 - i⟩ ⟨2, fun i => ⟨2 * i, fun j => 2 * j⟩⟩ ⟨2, fun i => 1 / 3 + i⟩ [0, 1]).2).map rowStats
+      = Model.lpsdCore true 2 x1 x2 2 (Model.lpsdWindow ⟨false, fun L => ⟨L, fun _ => 1⟩, fun L _ => ⟨L, fun _ => 1⟩⟩ 0)
+          (fun L o => ⟨L, (o + 1).toNat, fun _ _ => 0⟩)
+          ([0, 1].map (Model.pbinAt ⟨2, fun i => 1 / 3 + i⟩ ⟨2, fun i => 3 - i⟩ ⟨2, fun i => ⟨2 * i, fun j => 2 * j⟩⟩)) :=
+  gen_lpsd_core_eq_model_all_backends u _ _ _ 0 2 (fun _ _ => rfl) "numpy" x1 x2 true 2 10 _ _ _ _
+
 /-! ### the hypotheses are satisfiable -/
 
 /-- `BackendOk`: any selection rule is fine once the fallbacks agree with the translated kernels (here: they ARE those kernels) and the bin has a segment;
@@ -968,3 +1112,9 @@ open LpsdCoreGen
 #print axioms gen_plan_validate_accepts_safe
 #print axioms gen_plan_band_eq_model
 #print axioms gen_plan_band_none
+#print axioms dispatchWith_genNp6
+#print axioms dispatchWith_genFamilyAll
+#print axioms gen_lpsd_core_eq_model_all_backends
+#print axioms gen_lpsd_core_eq_ref_all_backends_cross
+#print axioms gen_lpsd_core_eq_ref_all_backends_auto
+#print axioms gen_single_bin_section_all_backends
